@@ -205,6 +205,7 @@ impl StdAlpha {
             acts.push(Act::Blk {
                 blocks: 1,
                 secs: *s,
+                ms: 0,
             });
         }
         for p in &self.prices {
